@@ -435,8 +435,8 @@ def case_bad_antenna(ctx, rng, idx):
 
 
 GENS = {
-    "model": Gen(case_model, 4200, 252000),
-    "antenna": Gen(case_antenna, 300, 30000),
+    "model": Gen(case_model, 4200, 2100000),
+    "antenna": Gen(case_antenna, 300, 300000),
     "bad-antenna": Gen(case_bad_antenna, 7, 7, exhaustive=True),
 }
 MIN_EVALS = {"values-vs-fresh-scalar": 5000, "monotone-in-distance": 3000,
